@@ -137,6 +137,15 @@ func poolHistory(c *fw.Ctx, steps int) {
 			inputs = append(inputs, bad)
 		}
 	}
+	// inputs that are well-formed at the top level but carry a repeated nested field whose LAST occurrence
+	// is damaged: Decode succeeds, NestedResults decodes the good occurrences and then fails
+	if hasNested && r.Chance(1, 2) {
+		if idx := r.Intn(len(inputs)); !malformed[idx] {
+			if bad, ok := nestedCorruptInput(r, def, fs, inputs[idx]); ok {
+				inputs = append(inputs, bad)
+			}
+		}
+	}
 	header := fmt.Sprintf("L 1 %s", def.String())
 	req := []string{header}
 	var rep []string
@@ -232,16 +241,28 @@ func poolHistory(c *fw.Ctx, steps int) {
 				tag = 1 + r.Intn(12)
 			}
 			name := accNames[r.Intn(len(accNames))]
-			got := accessPath(hd.res, []int{tag}, name)
-			req = append(req, fmt.Sprintf("acc %d %d %s", h, tag, name))
-			rep = append(rep, got)
-			lastClosed = -1
-			if got == "panic" {
-				violate("pool/accessor-panic/"+name, "accessor panicked", "", "panic")
-				break
+			names := []string{name}
+			if r.Chance(1, 4) {
+				// every accessor on this tag: the typed accessors keep per-kind scratch slices in the pooled
+				// object, so each of them has to be exercised in several lives of one object
+				names = accNames
 			}
-			if want, ok := refPathAnswer(hd.input, hd.def, []int{tag}, name); ok && want != got {
-				violate("pool/isolation/"+name, "a result exposed values that are not those of its own input", want, got)
+			var got string
+			lastClosed = -1
+			for _, name = range names {
+				got = accessPath(hd.res, []int{tag}, name)
+				req = append(req, fmt.Sprintf("acc %d %d %s", h, tag, name))
+				rep = append(rep, got)
+				if got == "panic" {
+					violate("pool/accessor-panic/"+name, "accessor panicked", "", "panic")
+					break
+				}
+				if want, ok := refPathAnswer(hd.input, hd.def, []int{tag}, name); ok && want != got {
+					violate("pool/isolation/"+name, "a result exposed values that are not those of its own input", want, got)
+				}
+			}
+			if got == "panic" {
+				break
 			}
 			// safe mode: typed slices handed out (root and nested results alike) must survive too
 			if !opt.fast && hd.res != nil && strings.HasPrefix(got, "ok") {
@@ -465,6 +486,50 @@ func poolHistory(c *fw.Ctx, steps int) {
 	if r.Intn(40) == 0 {
 		c.Sample(map[string]interface{}{"stream": "histories", "decoder": desc, "history": trunc(strings.Join(req[1:], " ; "), 400)})
 	}
+}
+
+// nestedCorruptInput appends to base two occurrences of a tag declared as nested: a good one and one whose
+// payload ends in the middle of a varint.
+func nestedCorruptInput(r *prng.Rng, def *lzDef, fs []*lzField, base []byte) ([]byte, bool) {
+	var cands []lzDefEntry
+	for _, e := range def.entries {
+		if e.sub != nil && e.key > 0 {
+			cands = append(cands, e)
+		}
+	}
+	if len(cands) == 0 {
+		return nil, false
+	}
+	e := cands[r.Intn(len(cands))]
+	// the tag must not occur in base with another wire type (a field number uses one wire type throughout)
+	recs, ok := refParse(base)
+	if !ok {
+		return nil, false
+	}
+	for _, rc := range recs {
+		if int(rc.num) == e.key && rc.typ != protowire.BytesType {
+			return nil, false
+		}
+	}
+	good := []byte{0x08, 0x01}
+	for _, f := range fs {
+		if f.tag == e.key && f.kind == lzMsg {
+			for _, sf := range f.sub {
+				if sf.count == 0 {
+					sf.count = 1
+				}
+			}
+			good = encodeLz(r, f.sub)
+		}
+	}
+	out := append([]byte{}, base...)
+	for k := 1 + r.Intn(2); k > 0; k-- {
+		out = protowire.AppendTag(out, protowire.Number(e.key), protowire.BytesType)
+		out = protowire.AppendBytes(out, good)
+	}
+	out = protowire.AppendTag(out, protowire.Number(e.key), protowire.BytesType)
+	out = protowire.AppendBytes(out, []byte{0x08, 0x80})
+	return out, true
 }
 
 func roots(hs map[int]*lzHandle) []*lzHandle {
